@@ -188,7 +188,10 @@ def replay_walk(path):
         except AttributeError:
             e["res"] = "AttributeError"
         if drift is None:
-            real = raw(pure, "T")
+            try:
+                real = raw(pure, "T")
+            except Exception as ex:     # the private representation differs from the model's (renamed / restructured): drift, not an error
+                real = {"slot": "unobservable: %s: %s" % (type(ex).__name__, ex)}
             if real != st["obj"]:
                 drift = {"step": n, "action": [act] + [repr(a)[:60] for a in args],
                          "diff": {k: [repr(real[k])[:300], repr(st["obj"][k])[:300]] for k in real if real[k] != st["obj"].get(k)}}
